@@ -4,7 +4,7 @@
 (*   world[k]   replica series [lbls, id, samples <<t,v>>.., chunks         *)
 (*              [lo,hi,st]..] built by the harness from the case            *)
 (*   cfg        [dedup, rls, strip, lo, hi, pr, retr, frame, batch, tsdb,   *)
-(*               fail, tight]                                               *)
+(*               fail, tight, sel, down, fn, rng, maxres]; nstores          *)
 (*   series[i]  [lbls, samples] as returned by                              *)
 (*              NewQueryableCreator(..)(dedup, rls, ..).Querier(lo, hi)     *)
 (*              .Select(nil hints, __name__="m") over a real ProxyStore     *)
@@ -17,27 +17,34 @@
 (***************************************************************************)
 EXTENDS TraceLib, ReadPath
 
-Reps(e) == RangeOf(e.world)
 (* "With deduplication off" = no label is a replica label.  *)
 RLof(e) == IF e.cfg.dedup THEN RangeOf(e.cfg.rls) ELSE {}
-Failing(e) == e.cfg.fail # ""
+
+(* stores that take part: selected by the store matchers (cfg.sel, 0 = all) and not down *)
+InScope(e) == { s \in 1..e.nstores : (e.cfg.sel = 0 \/ e.cfg.sel = s) /\ e.cfg.down # s }
+SReps(e) == IF e.cfg.tsdb THEN RangeOf(e.world) ELSE Scoped(RangeOf(e.world), InScope(e))
+VReps(e) == Visible(SReps(e))
+(* a queried store fails: the extra failing store, or a selected data store that is down *)
+Failing(e) == \/ e.cfg.fail # "" /\ e.cfg.sel = 0
+              \/ e.cfg.down # 0 /\ e.cfg.down <= e.nstores /\ (e.cfg.sel = 0 \/ e.cfg.sel = e.cfg.down)
 
 (* label sets of the known-finding class (input only; same predicate as ReadPathMC) *)
 InKF(e, l) ==
-    LET G == Group(Reps(e), RLof(e), l) IN
-    /\ RLof(e) # {} /\ ~e.cfg.tsdb /\ G # {} /\ IdenticalGroup(G)
-    /\ FirstChainIncomplete(GroupChunks(G, e.cfg.lo, e.cfg.hi), e.cfg.lo, e.cfg.hi, (CHOOSE r \in G : TRUE).samples)
+    LET G == Group(SReps(e), RLof(e), l)  VG == Group(VReps(e), RLof(e), l) IN
+    /\ RLof(e) # {} /\ ~e.cfg.tsdb /\ VG # {} /\ IdenticalGroup(VG)
+    /\ FirstChainIncomplete(GroupChunks(G, e.cfg.lo, e.cfg.hi), e.cfg.lo, e.cfg.hi, (CHOOSE r \in VG : TRUE).samples)
 
 JudgedExact(e, l) == CASE e.part = "all" -> TRUE [] e.part = "rest" -> ~InKF(e, l) [] e.part = "kf" -> InKF(e, l)
 JudgedOther(e) == e.part # "kf"
 
 Mode(e, on, off) == IF RLof(e) # {} THEN on ELSE off
+StoreName(k) == "store-" \o ToString(k)
 
 Judge(e) ==
-    LET reps == Reps(e)  RL == RLof(e)  lo == e.cfg.lo  hi == e.cfg.hi  out == e.series
+    LET reps == VReps(e)  RL == RLof(e)  lo == e.cfg.lo  hi == e.cfg.hi  out == e.series
         aborted == Failing(e) /\ ~e.cfg.pr
     IN
-    (* the query itself: succeeds when every store answers, and under the warn strategy *)
+    (* the query itself: succeeds when every queried store answers, and under the warn strategy *)
     (IF JudgedOther(e) /\ ~aborted /\ e.err # "" THEN {"select-succeeds"} ELSE {})
     \cup
     (* C04, sentence 1: "a query with deduplication on returns one series per label set after     *)
@@ -56,15 +63,23 @@ Judge(e) ==
        THEN {"samples-from-replicas"} ELSE {})
     \cup
     (* ---- querier behaviour beyond C04's statement (extensions, same weakest-reading rule) ----  *)
-    (* partial response off + a failing store: the Select fails (C06 mapping flag -> ABORT)        *)
+    (* partial response off + a failing store: the Select fails (flag -> ABORT strategy)           *)
     (IF JudgedOther(e) /\ aborted /\ e.err = "" THEN {"ext-abort-on-store-failure"} ELSE {})
     \cup
     (* partial response on + a failing store: a warning surfaces in SeriesSet.Warnings()           *)
     (IF JudgedOther(e) /\ Failing(e) /\ e.cfg.pr /\ e.err = "" /\ e.warns < 1 THEN {"ext-warning-surfaces"} ELSE {})
     \cup
     (* the time range sent to every queried store covers the querier's [mint, maxt]                *)
-    (IF JudgedOther(e) /\ \E k \in DOMAIN e.reqs : e.reqs[k].mint > lo \/ e.reqs[k].maxt < hi
+    (IF JudgedOther(e) /\ \E k \in DOMAIN e.reqs : ~RangeCovers(e.reqs[k].mint, e.reqs[k].maxt, lo, hi)
        THEN {"ext-store-range-covers-query"} ELSE {})
+    \cup
+    (* store matchers: a store whose address they do not match is not queried                      *)
+    (IF JudgedOther(e) /\ e.cfg.sel # 0 /\ \E k \in DOMAIN e.queried : e.queried[k] # StoreName(e.cfg.sel)
+       THEN {"ext-store-matchers-select"} ELSE {})
+    \cup
+    (* max source resolution: never coarser than allowed, nor than range/2 for two-sample functions *)
+    (IF JudgedOther(e) /\ \E k \in DOMAIN e.reqs : ~MaxResOK(e.reqs[k].maxres, e.cfg.maxres, e.cfg.fn, e.cfg.rng)
+       THEN {"ext-max-resolution-honoured"} ELSE {})
 
 (* Model conformance (never a verdict): the algorithm-level pipeline predicts the samples inside *)
 (* the query range.                                                                              *)
@@ -72,7 +87,7 @@ NoTies(chs) == \A c, d \in chs : (c.min = d.min /\ c.max = d.max) => c.samples =
 Drift(e) ==
     /\ e.drift /\ e.err = ""
     /\ \E i \in DOMAIN e.series :
-         LET G == Group(Reps(e), RLof(e), e.series[i].lbls)
+         LET G == Group(SReps(e), RLof(e), e.series[i].lbls)
              chs == GroupChunks(G, e.cfg.lo, e.cfg.hi) IN
          /\ G # {} /\ NoTies(chs)
          /\ InRange(e.series[i].samples, e.cfg.lo, e.cfg.hi) #
